@@ -11,7 +11,7 @@ def _c05_case(c):
 
 CONFIG = {
     "properties_file": "Properties/C05.v",
-    "proof_files": ["Base/Prelude.v", "Proofs/Verify.v", "Proofs/VerifyComplete.v", "Proofs/VerifyProxy.v", "Proofs/VerifyFuel.v"],
+    "proof_files": ["Base/Prelude.v", "Proofs/Verify.v", "Proofs/VerifyComplete.v", "Proofs/VerifyProxy.v", "Proofs/VerifyFuel.v", "Proofs/VerifyConc.v"],
     "model_files": ["Generated/GC05.v", "Model/Verify.v"],
     "extract": "XC05.v",
     "ml_main": "c05_main.ml",
@@ -24,11 +24,11 @@ CONFIG = {
         "os.File.ReadFrom falls back to io.Copy with a 32 KiB buffer for a *VerifyReader source (go1.26.8, linux); the theorems hold for every buffer size",
         "file system: os.CreateTemp names are unique, os.Rename is atomic and replaces the target (process runs as root, so a read-only target is replaced rather than refused); blobs/<alg>/<encoded> is injective in the digest string",
         "file.Store: only plain file names (no path traversal, no unpack annotation, non-manifest media types); two different names never resolve to the same path",
-        "concurrent pushes: the micro-step transition system of Model/Verify.v (cstep) is not tied to the code by trace correspondence; the concurrent oracle (goroutine races of good/bad pushes of one digest on oci/memory/limited stores with a concurrent observer) exercises the real code",
+        "concurrent pushes: the micro-step transition system of Model/Verify.v (cstep) is tied to the code by outcome membership: for races of 2-3 goroutines on one OCI layout the observed per-goroutine results + final blobs/ listing + ingest/ count must be one of the terminal outcomes of the exhaustive interleaving of the model (explore, proved to produce runs of the system only; Writes are explored unsplit because they touch only the thread's own ingest file -- this reduction is argued, not proved); individual file-system micro-steps are not observed (no syscall tracing); larger races and memory/limited stores are covered by the concurrent oracle only",
         "cas.Proxy is modelled for a cas.Memory cache (NewProxy / NewProxyWithLimit), a caller that issues any sequence of Read sizes and then Close, StopCaching on/off; the io.Pipe is synchronous, which makes the session deterministic (a Write returns the prefix the push consumed + the push error, the drain loop after a successful push consumes the rest); a caller that never calls Close, Proxy over other cache implementations and Proxy.Exists are not modelled",
     ],
     "level_text": "Coq theorems for every reader behaviour (arbitrary chunking, 0-byte reads, error at any offset, data with EOF), every descriptor and every digest function: ReadAll / any use of VerifyReader / CopyBuffer (any buffer size) succeed only with exactly the descriptor's bytes and an exhausted reader; malformed or unsupported digest, negative size, short reader, wrong first-Size bytes and trailing bytes are always errors; Push on memory, limited, OCI and file stores stores exactly those bytes or leaves Exists/Fetch/blobs unchanged; after any push history everything visible matches; any interleaving of concurrent OCI pushes keeps every blob verified; pre-fix negative-size acceptance kept as a refuted witness. Model tied to the code by differential runs (scripted readers x descriptors x push histories on the real stores, listing blobs/ and ingest/) and an independent SHA-2 oracle incl. goroutine races and the caching proxy",
-    "level_note": "digest function abstract (no SHA-2 model); Go io helpers and go-digest validation hand-modelled (tied by correspondence, AST hashes of the mirrored functions recorded); write errors of the destination and path traversal/unpack in file.Store are not modelled; cas.Proxy is modelled for memory caches and closing callers; the concurrent transition system is validated only through the concurrent oracle",
+    "level_note": "digest function abstract (no SHA-2 model); Go io helpers and go-digest validation hand-modelled (tied by correspondence, AST hashes of the mirrored functions recorded); write errors of the destination and path traversal/unpack in file.Store are not modelled; cas.Proxy is modelled for memory caches and closing callers; the concurrent transition system is tied by outcome-set membership of small races (not by per-syscall traces)",
     "technique": "machine-checked proof in Coq (invariants of the VerifyReader state machine over all reader scripts, store invariants over all push histories, transition-system invariant over all interleavings) + translator-regenerated constants/AST anchors + model/implementation correspondence",
     "explanation": "theorems about an executable model of content/reader.go, internal/ioutil/io.go, cas.Memory, LimitedStorage, oci.Storage.Push and file.Store.push whose reader is an arbitrary script; the extracted model and the real code are run on the same generated scripts/descriptors/push histories and their results, Exists/FetchAll observations and directory listings are diffed; an independent oracle recomputes SHA-2 and checks the property statement directly (also under goroutine races and through the caching proxy)",
 }
